@@ -341,9 +341,14 @@ class SparselyBin(Factory, Container):
                 self.nanflow.fill(datum, weight)
             else:
                 b = self.bin(q)
-                if b not in self.bins:
-                    self.bins[b] = self.value.copy()
-                self.bins[b].fill(datum, weight)
+                sub = self.bins.get(b)
+                if sub is None:
+                    # fill the new bin before inserting it, so that a failing fill leaves no empty bin behind
+                    sub = self.value.copy()
+                    sub.fill(datum, weight)
+                    self.bins[b] = sub
+                else:
+                    sub.fill(datum, weight)
             # no possibility of exception from here on out (for rollback)
             self.entries += weight
 
